@@ -1,4 +1,5 @@
 import LalrpopModel.Model.LR.Validate
+import LalrpopModel.Model.LR.Cyk
 import LalrpopModel.Model.Proto
 /-!
 `lpm_lr`: line-protocol driver for M-LR.
@@ -171,6 +172,15 @@ def firstFailing (G : Grammar) (T : Tables) (A : Automaton) (ann : Ann) : String
   else if !checkItems G T A ann then "invalid V2-items"
   else "valid"
 
+/-- `validate2`: the clauses of `validate`, then V5 (productive, non-empty item sets) and V6
+    (start production reduced on EOF only), which the C04/C05 theorems need in addition -/
+def firstFailing2 (G : Grammar) (T : Tables) (A : Automaton) (ann : Ann) : String :=
+  let r := firstFailing G T A ann
+  if r != "valid" then r
+  else if !checkProductive G A then "invalid V5-productive"
+  else if !checkStartEof G T then "invalid V6-start-eof"
+  else "valid"
+
 def encCheck (G : Grammar) (T : Tables) (A : Automaton) : String :=
   if encodeAction G.nTerm A != T.action then "diff action"
   else if encodeEof A != T.eofAction then "diff eof"
@@ -180,6 +190,72 @@ def encCheck (G : Grammar) (T : Tables) (A : Automaton) : String :=
   else if !(List.range A.states.length).all (fun s =>
       ((A.states.getD s default).gotos).all (fun (B, s') => T.gotoAt s B == s')) then "diff goto"
   else "same"
+
+/-- `runc`: same run, rendered as the compiled-parser runner renders it: the action log is the
+    trace without the final reduce of the start production (an internal action) -/
+def doRunC (T : Tables) (ws : List String) : String :=
+  match kv ws "fail", kv ws "start", kv ws "input" with
+  | some f, some st, some inp =>
+    match st.toInt?, parseItems inp with
+    | some startLoc, some items =>
+      let failAt := if f = "-" then none else f.toNat?
+      let (c, ph) := run T acceptsFuel failAt startLoc runFuel (init startLoc items) .pull
+      let tr := c.trace.reverse
+      match ph with
+      | .done (.ok v) =>
+        let log := tr.dropLast
+        s!"ok {showTree v} pulled={c.pulled} log={".".intercalate (log.map toString)}"
+      | .done (.err e) => s!"err {showPErr e} pulled={c.pulled} log={".".intercalate (tr.map toString)}"
+      | .done (.panic .outOfFuel) => "budget"
+      | .done (.panic _) => "panic"
+      | _ => "budget"
+    | _, _ => "bad-op"
+  | _, _, _ => "bad-op"
+
+/-- `runx`: the expected list the recursive-ascent backend reports for the same run: the
+    terminals with any action in the state where the error is raised
+    (`ascent.rs::write_state_fn`, `successful_terminals`); `-` when the run does not end in
+    `UnrecognizedToken`/`UnrecognizedEof` -/
+def doRunX (T : Tables) (ws : List String) : String :=
+  match kv ws "fail", kv ws "start", kv ws "input" with
+  | some f, some st, some inp =>
+    match st.toInt?, parseItems inp with
+    | some startLoc, some items =>
+      let failAt := if f = "-" then none else f.toNat?
+      let (c, ph) := run T acceptsFuel failAt startLoc runFuel (init startLoc items) .pull
+      let isUE := match ph with
+        | .done (.err (.unrecognizedToken _ _)) => true
+        | .done (.err (.unrecognizedEof _ _)) => true
+        | _ => false
+      if isUE then
+        match c.states with
+        | top :: _ =>
+          let ex := (List.range T.nRepr).filter fun i => T.actionAt top i != some 0
+          "x=" ++ showExp ex
+        | [] => "-"
+      else "-"
+    | _, _ => "bad-op"
+  | _, _, _ => "bad-op"
+
+/-- `conts input=<items>`: terminals `a` (of `__TERMINAL`) such that the machine, run on the given
+    tokens followed by one token of kind `a`, does not reject that last token -/
+def doConts (T : Tables) (ws : List String) : String :=
+  match kv ws "input" with
+  | some inp =>
+    match parseItems inp with
+    | some items =>
+      let n := items.length
+      let ok := (List.range T.nRepr).filter fun a =>
+        let extra : Item := .tok { l := 1000000, kind := some a, id := n, r := 1000001 }
+        let (_, ph) := run T acceptsFuel none 0 runFuel (init 0 (items ++ [extra])) .pull
+        match ph with
+        | .done (.err (.unrecognizedToken t _)) => t.id != n
+        | .done (.ok _) => true
+        | .done (.err _) => true
+        | _ => false
+      ",".intercalate (ok.map toString)
+    | none => "bad-op"
+  | none => "bad-op"
 
 def stepLine (S : Sess) (line : String) : Sess × String :=
   match words line with
@@ -198,8 +274,19 @@ def stepLine (S : Sess) (line : String) : Sess × String :=
   | ["validate"] =>
     let ann := computeAnn S.G S.T S.A.states.length
     (S, firstFailing S.G S.T S.A ann)
+  | ["validate2"] =>
+    let ann := computeAnn S.G S.T S.A.states.length
+    (S, firstFailing2 S.G S.T S.A ann)
   | ["enccheck"] => (S, encCheck S.G S.T S.A)
   | "run" :: ws => (S, doRun S.T ws)
+  | ["member", ks] =>
+    -- `member kinds=<csv>`: is the terminal string a sentence of the loaded grammar's start symbol?
+    (S, match (if ks = "kinds=" then some [] else csvNats (ks.drop 6).toString), S.G.startSym with
+        | some w, some st => if member S.G st w then "yes" else "no"
+        | _, _ => "bad-op")
+  | "runc" :: ws => (S, doRunC S.T ws)
+  | "runx" :: ws => (S, doRunX S.T ws)
+  | "conts" :: ws => (S, doConts S.T ws)
   | _ => (S, "bad-op")
 
 def main : IO Unit := lineLoopS ({} : Sess) stepLine
